@@ -54,7 +54,7 @@ Print Assumptions C14_repr_eval_roundtrip.
    prefix-free and self-synchronising, so no match starts inside a character, and the reported
    position is a code-point index.  cp_find's `index_from` is the least occurrence in the window. *)
 From Coq Require Import ZArith.
-From GP Require Model.StrSearch Proofs.StrSearch.
+From GP Require Model.StrSearch Proofs.StrSearch Proofs.StrCount.
 Theorem C14_find_by_code_points : forall s sub beg end_, Forall scalar s -> Forall scalar sub ->
   Model.StrSearch.find_model (encode s) (encode sub) beg end_ = Model.StrSearch.cp_find s sub beg end_.
 Proof. exact Proofs.StrSearch.find_encode. Qed.
@@ -77,6 +77,12 @@ Theorem C14_contains_by_code_points : forall s sub, Forall scalar s -> Forall sc
   (match Model.StrSearch.index_from sub s 0 with Some _ => true | None => false end).
 Proof. exact Proofs.StrSearch.contains_encode. Qed.
 
+(* count: non-overlapping occurrences (leftmost first) in the window, counted over the bytes = counted over
+   code points; the empty string is counted once more than the window has characters *)
+Theorem C14_count_by_code_points : forall s sub beg end_, Forall scalar s -> Forall scalar sub ->
+  Model.StrSearch.count_model (encode s) (encode sub) beg end_ = Model.StrSearch.cp_count s sub beg end_.
+Proof. exact Proofs.StrCount.count_model_encode. Qed.
+
 Example C14_find_nonvacuous :
   let s := [97; 233; 8364; 128512; 233; 98]%N in
   Model.StrSearch.find_model (encode s) (encode [233]%N) 2%Z 100%Z = 4%Z /\
@@ -91,3 +97,4 @@ Print Assumptions C14_find_is_least_occurrence.
 Print Assumptions C14_find_none_means_absent.
 Print Assumptions C14_startswith_by_code_points.
 Print Assumptions C14_contains_by_code_points.
+Print Assumptions C14_count_by_code_points.
